@@ -7,7 +7,11 @@
 mod refcodec;
 mod util;
 
+mod sim;
+mod vbus;
+
 mod eng_codec;
+mod eng_rx;
 
 use util::*;
 
@@ -132,6 +136,7 @@ fn main() {
     match prop.as_str() {
         "C09" => eng_codec::c09(&mut ctx),
         "C10" => eng_codec::c10(&mut ctx),
+        "C16" => eng_rx::c16(&mut ctx),
         _ => {
             eprintln!("unknown property {}", prop);
             std::process::exit(2);
